@@ -457,6 +457,14 @@ theorem interN_length (n : Nat) (cs : List Ctx) (h : ∀ c ∈ cs, c.length = n)
 theorem single_length (n k : Nat) (ks : List Nat) (l : Leaf) : (single n k ks l).length = n := by
   cases ks <;> simp [single]
 
+theorem singleV_length (n k : Nat) (ks : List Nat) (v : V) : (singleV n k ks v).length = n := by
+  cases ks <;> simp [singleV]
+
+/-- the scalar `str_to_dict` of the model is the general one at a leaf -/
+theorem single_eq_singleV (n : Nat) : ∀ (ks : List Nat) (k : Nat) (l : Leaf), single n k ks l = singleV n k ks (.leaf l)
+  | [], k, l => by simp [single, singleV]
+  | k' :: ks, k, l => by simp [single, singleV, single_eq_singleV n ks k' l]
+
 /-! ## lookups and formatting are monotone while they succeed -/
 
 theorem getRec_mono : ∀ (p : List Nat) (c d : Ctx) (v : V), leL c d → getRec c p = .ok v →
@@ -560,6 +568,10 @@ theorem fmtUpdate_mono (n k : Nat) (ks : List Nat) (v : SVal) (c d x : Ctx) (h :
       cases hv
       simp only [fmt_mono t c d l h hf]
       exact ⟨_, rfl, updL_mono _ _ _ h⟩
+  | dictv y =>
+    simp only [fmtUpdate] at hv ⊢
+    cases hv
+    exact ⟨_, rfl, updL_mono _ _ _ h⟩
 
 theorem fmtUpdate_length (n k : Nat) (ks : List Nat) (v : SVal) (c x : Ctx) (hc : c.length = n)
     (hv : fmtUpdate n k ks v c = .ok x) : x.length = n := by
@@ -574,5 +586,8 @@ theorem fmtUpdate_length (n k : Nat) (ks : List Nat) (v : SVal) (c x : Ctx) (hc 
     | ok l =>
       simp only [hf] at hv; cases hv
       simp [updL_length, single_length, hc]
+  | dictv y =>
+    simp only [fmtUpdate] at hv; cases hv
+    simp [updL_length, singleV_length, hc]
 
 end Lena.C13
